@@ -168,6 +168,13 @@ func (group *Group) AddRtmpPullSession(session *rtmp.PullSession) error {
 		return base.ErrDupInStream
 	}
 
+	if !group.isPullEnabled() {
+		// StopPull (or a kick) switched the relay pull off while this session was still connecting; stopPull could not
+		// see the session then, so it must not become the input of the group now
+		Log.Warnf("[%s] relay pull stopped while connecting. drop=%s", group.UniqueKey, session.UniqueKey())
+		return errRelayPullNotEnable
+	}
+
 	Log.Debugf("[%s] [%s] add PullSession into group.", group.UniqueKey, session.UniqueKey())
 
 	group.setRtmpPullSession(session)
@@ -202,6 +209,13 @@ func (group *Group) AddRtspPullSession(session *rtsp.PullSession) error {
 	if group.hasInSession() {
 		Log.Errorf("[%s] in stream already exist. wanna add=%s", group.UniqueKey, session.UniqueKey())
 		return base.ErrDupInStream
+	}
+
+	if !group.isPullEnabled() {
+		// StopPull (or a kick) switched the relay pull off while this session was still connecting; stopPull could not
+		// see the session then, so it must not become the input of the group now
+		Log.Warnf("[%s] relay pull stopped while connecting. drop=%s", group.UniqueKey, session.UniqueKey())
+		return errRelayPullNotEnable
 	}
 
 	Log.Debugf("[%s] [%s] add PullSession into group.", group.UniqueKey, session.UniqueKey())
